@@ -778,7 +778,7 @@ Definition gop_code (o : gop) : N :=
   match o with
   | GBlkReadonly => 1 | GBlkFlush => 2 | GConsoleSize => 3 | GConsoleEmergWrite => 4 | GGpuGetEdid => 5
   | GNetHeader => 6 | GNetSend _ => 7 | GRngRequest _ => 8
-  | GGpuEdidVia e => if e =? 10 then 10 else 9 | GNetRecvHdr => 11
+  | GGpuEdidVia e => if e =? 10 then 10 else 9 | GNetRecvHdr => 11 | GNetTxBegin _ => 12 | GBlkFill => 13
   end.
 Definition out_class (o : outcome N) : N := match o with Ok _ => 0 | Err _ => 1 | Panic => 2 | UB => 3 end.
 Definition out_value (o : outcome N) : N := match o with Ok v => v | Err c => c | _ => 0 end.
